@@ -381,3 +381,76 @@ func verifH_C06_form_array() {
 	}
 	verifReach("end")
 }
+
+//verif:harness id=C06 tier=quick,thorough witness=end bounds="per-property encodings of url-encoded bodies: schema {l: array of integers, s: string}; encoding of l with style unset / form / spaceDelimited / pipeDelimited x explode unset / true / false (unset = form, exploded); l carries 1-2 items of one symbolic decimal digit each, serialised by the style's rule (l=1&l=2 | l=1,2 | l=1%202 | l=1|2); the decoder returns the array the body encodes, and ValidateRequestBody accepts exactly when the item count meets a symbolic maxItems"
+func verifH_C06_form_encodings() {
+	intS := &openapi3.SchemaRef{Value: &openapi3.Schema{Type: &openapi3.Types{"integer"}}}
+	maxItems := uint64(verifChoose("maxItems", 3))
+	arr := &openapi3.SchemaRef{Value: &openapi3.Schema{Type: &openapi3.Types{"array"}, Items: intS, MaxItems: &maxItems}}
+	schema := &openapi3.SchemaRef{Value: &openapi3.Schema{Type: &openapi3.Types{"object"}, Properties: openapi3.Schemas{"l": arr, "s": {Value: &openapi3.Schema{Type: &openapi3.Types{"string"}}}}}}
+	enc := &openapi3.Encoding{Style: []string{"", "form", "spaceDelimited", "pipeDelimited"}[verifChoose("style", 4)]}
+	explode := true
+	switch verifChoose("explode", 3) {
+	case 1:
+		t := true
+		enc.Explode = &t
+	case 2:
+		f := false
+		enc.Explode = &f
+		explode = false
+	}
+	if enc.Validate(context.Background()) != nil {
+		return
+	}
+	n := 1 + verifChoose("n", 2)
+	items := make([]string, n)
+	want := make([]any, n)
+	for i := range items {
+		d := verifNondetByteIn("d", "0123456789")
+		items[i] = string([]byte{d})
+		want[i] = int64(d - '0')
+	}
+	body := "s=x"
+	if explode {
+		for _, it := range items {
+			body += "&l=" + it
+		}
+	} else {
+		delim := ","
+		switch enc.Style {
+		case "spaceDelimited":
+			delim = "%20"
+		case "pipeDelimited":
+			delim = "|"
+		}
+		body += "&l=" + strings.Join(items, delim)
+	}
+	encFn := func(name string) *openapi3.Encoding {
+		if name == "l" {
+			return enc
+		}
+		return nil
+	}
+	dec := RegisteredBodyDecoder("application/x-www-form-urlencoded")
+	got, err := dec(strings.NewReader(body), http.Header{"Content-Type": []string{"application/x-www-form-urlencoded"}}, schema, encFn)
+	verifAssert(err == nil, "C06 form encodings: a body serialised by the property's encoding decodes")
+	if err == nil {
+		obj, ok := got.(map[string]any)
+		verifAssert(ok && len(obj) == 2 && verifSame(obj["s"], "x"), "C06 form encodings: the decoded object has both fields")
+		if ok {
+			l, isArr := obj["l"].([]any)
+			verifAssert(isArr && len(l) == n, "C06 form encodings: the array has one item per serialised item")
+			if isArr && len(l) == n {
+				for i := range l {
+					verifAssert(verifSame(l[i], want[i]), "C06 form encodings: each item decodes to the integer it encodes, in order")
+				}
+			}
+		}
+	}
+	rb := &openapi3.RequestBody{Required: true, Content: openapi3.Content{"application/x-www-form-urlencoded": &openapi3.MediaType{Schema: schema, Encoding: map[string]*openapi3.Encoding{"l": enc}}}}
+	op := &openapi3.Operation{RequestBody: &openapi3.RequestBodyRef{Value: rb}}
+	input := verifBodyInput(op, "application/x-www-form-urlencoded", body, true, &Options{})
+	verr := ValidateRequestBody(context.Background(), input, rb)
+	verifAssert((verr == nil) == (uint64(n) <= maxItems), "C06 form encodings: the request is accepted exactly when the decoded array satisfies maxItems")
+	verifReach("end")
+}
